@@ -28,7 +28,7 @@ pub fn alphabet() -> Vec<char> {
 }
 
 const STYLES: [&str; 3] = ["one-line", "consise", "pretty"];
-const SEPS: [&str; 7] = ["\n", "---\n", "\r\n", " ", "---", "\\", "\\n|\t"];
+const SEPS: [&str; 9] = ["\n", "---\n", "\r\n", " ", "---", "\\", "\\n|\t", "\u{b7}", ",\u{2028}"];
 
 /// delete whitespace outside strings
 fn strip_ws(s: &[u8]) -> Vec<u8> {
